@@ -296,6 +296,19 @@ def impl_oracle(c):
                     "data: %s" % (p["len"], p["cap"], p["n"], p["view_ok"]))
         if p["len"] > p["cap"] and p["n"] >= 0:
             return ("tunnel-read-overrun", "a read reply of %d bytes was accepted into a %d-byte buffer" % (p["len"], p["cap"]))
+    elif s == "longidle":
+        g = c["longidle"]
+        for m in g["modes"]:
+            if m.get("setup_err"):
+                return ("e2e-setup", "could not run the long idle connection (%s): %s" % (m["mode"], m["setup_err"]))
+            if not m["before"]["complete"]:
+                return ("e2e-longidle-setup:%s" % m["mode"], "the first exchange did not complete: %s" % m["before"])
+            for name, d in (("client->application", m["after_c2a"]), ("application->client", m["after_a2c"])):
+                if not d["complete"]:
+                    return ("idle-connection-died:%s" % m["mode"],
+                            "%s mode: one connection, a first exchange in both directions, then %d ms of silence with both "
+                            "sides open, then both sides write again: %s, %d of %d bytes arrived (%s)"
+                            % (m["mode"], g["idle_ms"], name, d["received"], d["sent"], d.get("err", "")))
     elif s == "age":
         g = c["age"]
         if g.get("setup_err"):
@@ -429,11 +442,26 @@ def run(ck):
     except Exception:
         pass
     ck.coverage["age_calls"] = agecalls
+    # a bound in time that is not one of the known ones and is short enough to wait for: one connection per mode
+    # idles slightly longer than it (none on the deployed code, so no time is spent)
+    KNOWN_DURATIONS = {"endpoint.go:10000", "endpoint.go:5000", "endpoint_client.go:3000", "endpoint_server.go:5000",
+                       "side_conn.go:3000", "transport.go:3000"}
+    idlems = 0
+    try:
+        blk = txt[txt.index("gen_sni_durations"):]
+        blk = blk[:blk.index("].")]
+        for item in re.findall(r'"([^"]+:\d+)"', blk):
+            ms = int(item.rsplit(":", 1)[1])
+            if item not in KNOWN_DURATIONS and 0 < ms < 20000:
+                idlems = max(idlems, ms + 1500)
+    except Exception:
+        pass
+    ck.coverage["long_idle_ms"] = idlems
 
     binp = ck.build_harness("c01")
     cases = []
     if binp:
-        cmd = [binp, "-seed", str(ck.seed), "-n", str(ncases), "-e2e", str(e2e_n), "-big", "-agecalls", str(agecalls)] + (["-huge"] if ck.thorough else [])
+        cmd = [binp, "-seed", str(ck.seed), "-n", str(ncases), "-e2e", str(e2e_n), "-big", "-agecalls", str(agecalls), "-idlems", str(idlems)] + (["-huge"] if ck.thorough else [])
         rc, out, err = vlib.sh2(cmd, timeout=2400)
         if rc != 0:
             ck.broken.append({"what": "harness run failed", "detail": err[-1500:]})
@@ -466,7 +494,10 @@ def run(ck):
         if body and body.get("skipped"):
             ck.coverage["e2e_skipped_after_timeouts"] = ck.coverage.get("e2e_skipped_after_timeouts", 0) + 1
             continue
-        if s == "age" and body:
+        if s == "longidle" and body:
+            for m in body["modes"]:
+                ck.count("longidle-" + m["mode"], key=("longidle", m["mode"], body["idle_ms"]), trivial=False)
+        elif s == "age" and body:
             ck.count("age-" + body["mode"], key=("age", body["mode"], body["calls"]), trivial=False)
             ck.coverage["age_ms"] = body.get("ms")
         elif s == "idle" and body:
